@@ -376,6 +376,8 @@ def still_fails(ops, proj, predicate=None):
     impl, _ = run_impl_replay(ops, "shrink")
     path = os.path.join(WORK, "shrink_%d.ops" % os.getpid())
     model = run_model(path)
+    if any(l.startswith("r=harness-") for l in impl):
+        return False        # the candidate is not a well-formed program any more (e.g. a drain of a feed whose start was removed)
     if predicate is not None:
         return predicate(ops, impl, model)
     for i, o in enumerate(ops):
